@@ -1,7 +1,7 @@
 (* C17 - the uniform superconducting state is exactly stationary (exact arithmetic). *)
 From Coq Require Import Reals List Arith.
 From PyTdgl Require Import Base.Ops Base.Cplx Model.FV Model.Euler Model.Step
-     Proofs.EulerR Proofs.FVR Proofs.FVC Proofs.StepP.
+     Proofs.EulerR Proofs.FVR Proofs.FVC Proofs.StepP Model.Adapt Proofs.AdaptP.
 Import ListNotations.
 Open Scope R_scope.
 
@@ -33,3 +33,15 @@ Theorem C17_uniform_stationary :
       (forall k, ob_Jn _ (so_obs _ out) k = 0).
 Proof. exact uniform_stationary. Qed.
 Print Assumptions C17_uniform_stationary.
+
+(* in a stationary state the adaptive step is dt_init up to step window+1 and the configured maximum ever after *)
+Theorem C17_dt_grows_to_max :
+  forall (o : optsR), 0 < dt_init _ o -> dt_init _ o <= dt_max _ o ->
+    half _ o = 1/2 -> 0 < floor_ _ o -> adaptive _ o = true ->
+    dt_max _ o <= 1/2 * (dt_init _ o / floor_ _ o) ->
+  forall n i, (i < n)%nat ->
+    nth_error (ahist OpsR o (ainit OpsR o) 0 (repeat stat n)) i
+    = Some (Some (if Nat.ltb (S (window _ o)) i then dt_max _ o else dt_init _ o,
+                  if Nat.ltb (window _ o) i then dt_max _ o else dt_init _ o)).
+Proof. exact dt_grows_to_max. Qed.
+Print Assumptions C17_dt_grows_to_max.
